@@ -46,6 +46,11 @@ class NoHints:
         self.z = 1
 
 
+class TwoBare:  # two unresolvable positions in one structured type
+    def __init__(self, a, b=None):
+        self.a, self.b = a, b
+
+
 class AppError(Exception):  # no hints, constructor inherited from a C base without a text signature
     pass
 
@@ -69,7 +74,7 @@ def leaves():
         ("type", type), ("Decimal", decimal.Decimal), ("date", datetime.date), ("Literal[1,'a']", t.Literal[1, "a"]), ("Color", M.Color),
         ("frozenset", frozenset), ("Tuple", t.Tuple), ("Set", t.Set), ("FrozenSet", t.FrozenSet), ("Sequence", t.Sequence),
         ("Mapping", t.Mapping), ("MutableMapping", t.MutableMapping), ("Collection", t.Collection), ("Iterable", t.Iterable),
-        ("Deque", t.Deque), ("AppError", AppError), ("Zone", Zone),
+        ("Deque", t.Deque), ("AppError", AppError), ("Zone", Zone), ("TwoBare", TwoBare),
         # PEP 604 unions of plain classes (their text has no bracket)
         ("int|str", int | str), ("int|None", int | None), ("NoHints|None", NoHints | None),
         ("abc.Callable", collections.abc.Callable), ("abc.Mapping", collections.abc.Mapping), ("abc.Sequence", collections.abc.Sequence),
@@ -262,6 +267,17 @@ def check(name, T):
     r = check_bare(name, T, built)
     if r is not None:
         return r
+    if T is TwoBare:  # every unresolvable member is a pass-through, not only the first one
+        s1, s2 = _Opaque(), _Opaque()
+        try:
+            o = built["unmarshaller"]({"a": s1, "b": s2})
+        except Exception as e:  # noqa: BLE001
+            return ("unresolvable_member_raises", name, _d(e))
+        if not (type(o) is TwoBare and o.a is s1 and o.b is s2):
+            return ("unresolvable_member_not_passthrough", name, _d(vars(o)))
+        m = built["marshaller"](TwoBare(s1, s2))
+        if not (isinstance(m, dict) and m.get("a") is s1 and m.get("b") is s2):
+            return ("unresolvable_member_not_passthrough:marshal", name, _d(m))
     # repeatable construction: rebuild (cache hit), rebuild after clearing every cache
     def outcomes(u):
         out = []
